@@ -171,6 +171,8 @@ class Renderer:
             h = self.spec["helpers"][s["helper"]]
             return [f"{p}{s['bind']} = {h['name']}({', '.join(self.rx(a) for a in s['args'])})"]
         if k == "bind":
+            if s.get("mu"):  # explicit intermediate that opts out of the branch analysis
+                return [f"{p}{s['bind']} = cohdl.Temporary({self.rx(s['e'])}, maybe_uninitialized=True)"]
             return [f"{p}{s['bind']} = {self.rx(s['e'])}"]
         if k == "always":
             if s.get("form") == "with":
